@@ -205,13 +205,22 @@ class DenseOutput(object):
     def find_interval(self, t):
         if self.t_eval is None:
             raise ValueError("No interpolant has been added and time interval is not defined!")
-        return min(deutil.search_bisection(self.t_eval, t), len(self.y_interpolants) - 1)
+        idx = min(deutil.search_bisection(self.t_eval, t), len(self.y_interpolants) - 1)
+        if self.__is_reversed() and idx > 0 and self.t_eval[idx] > t:
+            idx -= 1
+        return idx
+
+    def __is_reversed(self):
+        # the pieces of a backward integration are stored by increasing end time, so piece i covers [t_eval[i], t_eval[i+1]]
+        return len(self.y_interpolants) > 0 and bool(self.y_interpolants[0].t1 < self.y_interpolants[0].t0)
 
     def find_interval_vec(self, t):
         if self.t_eval is None:
             raise ValueError("No interpolant has been added and time interval is not defined!")
         out = deutil.search_bisection_vec(self.t_eval_arr, t)
         out[out > len(self.y_interpolants) - 1] = len(self.y_interpolants) - 1
+        if self.__is_reversed():
+            out = D.ar_numpy.where((out > 0) & (D.ar_numpy.take(self.t_eval_arr, out, axis=0) > t), out - 1, out)
         return out
 
     def __call__(self, t):
